@@ -58,6 +58,21 @@ def _parser(pkg, cls, meth="_parse_string"):
     if (cls, meth) in cache:
         return cache[(cls, meth)]
     fn = pkg.folded(cls, meth, keep=KEEP)
+    # a local bound ONCE, to a constant (the parameter of a helper that was put back: `attribute = "temp_min"`), is that constant
+    # where it is read; setattr / getattr on it are then plain attribute accesses (fold_static)
+    stores = {}
+    for n in ast.walk(fn):
+        if isinstance(n, ast.Name) and isinstance(n.ctx, (ast.Store, ast.Del)):
+            stores[n.id] = stores.get(n.id, 0) + 1
+    params = {a.arg for n in ast.walk(fn) if isinstance(n, ast.arguments) for a in n.posonlyargs + n.args + n.kwonlyargs}
+    once = {st.targets[0].id: st.value for st in ast.walk(fn) if isinstance(st, ast.Assign) and len(st.targets) == 1 and isinstance(st.targets[0], ast.Name)
+            and isinstance(st.value, ast.Constant) and isinstance(st.value.value, str) and stores.get(st.targets[0].id) == 1 and st.targets[0].id not in params}
+    if once and any(isinstance(c, ast.Call) and isinstance(c.func, ast.Name) and c.func.id in ("setattr", "getattr") and len(c.args) >= 2 and isinstance(c.args[1], ast.Name)
+                    and c.args[1].id in once for c in ast.walk(fn)):
+        from ..normalize import _Subst, fold_static
+        fn = copy.deepcopy(fn)
+        fn.body = [_Subst(dict(once)).visit(st) for st in fn.body]
+        fn = fold_static(ast.fix_missing_locations(fn))
     # the tables of the modules the statements can come from: the classes of the MRO (helpers are put back from there); a name
     # that means different tables in two of them is left alone
     tabs, clash = {}, set()
